@@ -58,16 +58,25 @@ def twoPassOp (args : List String) : Option String :=
     let l ← samplesP
     pure (fF (wmean l) ++ " " ++ fF (twoPassVar l))) args
 
-/-- `c18.derived size weights trace` → gathered-and-reordered trace (as sample indices travel as floats) -/
+/-- `c18.derived size trace` → gathered-and-reordered trace (current code), the rank-ordered gather of the trace
+    and of the sample indices -/
 def derivedOp (args : List String) : Option String :=
+  run (do
+    let size ← nat
+    let t ← listOf flt
+    pure (fList fF (derivedTraceGather size t) ++ " " ++ fList fF (gatherLists (partition size t)) ++ " " ++
+      fList fN (gatherLists (partition size (List.range t.length))))) args
+
+/-- `c18.derived_pinned size weights trace` → the pinned tree's weight-matching re-ordering (regression model) -/
+def derivedPinnedOp (args : List String) : Option String :=
   run (do
     let size ← nat
     let w ← listOf flt
     let t ← listOf flt
-    pure (fList fF (derivedTraceGather size w t) ++ " " ++ fList fF (gatherLists (partition size t)))) args
+    pure (fList fF (derivedTraceGatherPinned size w t))) args
 
 def ops : List Op :=
   [("c18.acc", accOp), ("c18.pool", poolOp), ("c18.split", splitOp), ("c18.strided", stridedOp),
-   ("c18.twopass", twoPassOp), ("c18.derived", derivedOp)]
+   ("c18.twopass", twoPassOp), ("c18.derived", derivedOp), ("c18.derived_pinned", derivedPinnedOp)]
 
 end Taurex.Ops.C18
